@@ -20,8 +20,8 @@ change only the entities they are asked to change"):
                         get_table_sibling().get_frame() return the content of the file at the expected place,
                         find_mri_derivative_files returns exactly the non-json files with the desc (and task).
   Domain: ALL 2^6 presence/absence combinations of derivative, ses, task, run, space, desc x single / multi-part
-  extension x 6 value families (numeric labels, alphabetic labels starting with letters of their own key such as sub-bob /
-  task-stroop / desc-confounds, labels equal to their key, labels equal to another key, mixed, long camel-case).
+  extension x 8 value families (numeric labels, alphabetic labels starting with letters of their own key such as sub-bob /
+  task-stroop / desc-confounds, labels equal to their key, labels equal to another key, mixed, long camel-case, the same label everywhere, one-letter labels).
 Meadows ("single- or multi-participant, .mat or .json files load into RDMs whose values, stimulus labels
 (alphabetically sorted on request with values permuted alike), participant and task descriptors match the file and name"):
   * C20/meadows-filename     extract_filename_segments on the three documented file-name shapes: exact dict.
@@ -53,6 +53,33 @@ SPM ("high-pass filtering removes from each run's data its component in that run
   * C20/spm-mat-file         SPM.mat written with scipy.io.savemat -> get_info_from_spm_mat attributes (run structure,
                              filter bases, regressor names / run numbers, relocated raw data files).
   * C20/spm-relocate         relocate_file on posix / windows style SPM file entries.
+
+Dimension sweep (tools/SWEEP_BRIEF.md): the same clauses along dimensions the first tier did not vary
+  typed data        MNE: float32 / int32 / int16 epochs data, int32 event codes; Meadows: int64 / int16 / float32 values in mat and
+                    whole numbers in json; design matrix: integer onsets / durations, float32 / int64 / int16 confounds, 0/1 outlier
+                    columns, TR as int, volumes as numpy integer; SPM: float32 data in spm_filter, int16 / uint8 / float32 raw data
+                    in get_residuals (integer data given to spm_filter directly: pending triage, see below)
+  extreme units     MNE data x 1e-9 / 1e15 (fake) and x 1e-9 / 1e6 (real fif); Meadows values x 1e-12 / 1e9; confounds x 1e-26 ..
+                    1e12 (range-normalisation removes the unit); SPM data x 1e-26 .. 1e12 -- compared RELATIVE to the size of
+                    the data (_relclose), the harness' close() has an absolute floor
+  containers        task filter of find_mri_derivative_files as tuple / ndarray; other row labels and further columns in the events /
+                    confounds tables; key order inside the json objects; F-ordered and strided data for spm_filter
+  repeated values   BIDS families 'all-values-equal' (every entity 01) and 'single-char-own-key-letter'; 'func' repeated further
+                    down an SPM file entry; numeric-string stimulus names ('10' < '100' < '9' alphabetically); stimulus files with
+                    extensions of different length; unbalanced designs, mixed-case / numeric-string condition labels
+  sizes             two stimuli (one pair), 12-40 stimuli, five participants; single event per condition, 6-10 conditions, single
+                    confound, n/a in the last / a middle volume; ten and more SPM runs; further extensions (json, tsv.gz,
+                    dtseries.nii, func.gii ...) and layout roots (trailing separator, relative, with blanks, '.')
+  call sequences    C20/bids-sequence (look-ups repeated, reversed, interleaved with another file on the same layout, replacement
+                    dict untouched), bids-files (same relative paths with other content in another root, calls repeated),
+                    mne-epochs (second object of the same shape, the caller's change of the first result does not leak),
+                    C20/meadows-sequence (files of the same name with other content, held unsorted result), design matrix (tables
+                    of the same shape with other content in between, held result), spm_filter (another GLM object of the same
+                    directory with other bases, held result); the Meadows files are unchanged after loading
+  environment       C20/fresh-interpreter: a batch of the oracles above in new interpreters with other PYTHONHASHSEEDs
+Classes that FAIL on the unchanged tree are registered behind `if False:  # pending triage: <class>` in tier_c:
+  integer-typed-data (spm_filter keeps an integer dtype and truncates), single-run-spm-mat, condition-name-with-space,
+  old-root-contains-func (relocate_file), two-stimuli-multi-participant (Meadows mat), impulse-events-duration-0 (design matrix).
 
 NOT covered by this tier: values outside the BIDS label grammar (non-alphanumeric labels), nibabel / nitools image
 reading (faked), the numerical quality of the pchip HRF resampling (only correlation >= 0.9 with a literal prediction),
